@@ -32,7 +32,7 @@ type c05stack struct {
 
 var c05stacks = []c05stack{
 	{"mem", "", false}, {"mem-deep", "d", false},
-	{"mount0", "", false}, {"mount1", "m", false}, {"mount1-deep", "m/d", false}, {"mount2", "m/n", false},
+	{"mount0", "", false}, {"mount-cross", "", false}, {"mount1", "m", false}, {"mount1-deep", "m/d", false}, {"mount2", "m/n", false},
 	{"sub(mem)", "", false}, {"sub(mem)-deep", "d", false}, {"sub(mount1)", "", false}, {"sub(mount-above)", "m", false}, {"sub(sub(mem))", "", false},
 	{"os1", "", false}, {"os1-deep", "d", false}, {"os2", "", false}, {"os3", "", false},
 	{"cache", "", true}, {"cache-deep", "d", true}, {"tar", "", true}, {"tar-deep", "d", true},
@@ -51,7 +51,7 @@ func c05build(env *core.Env, st c05stack) (*c05built, error) {
 	switch st.name {
 	case "mem", "mem-deep":
 		b.fs = mk()
-	case "mount0", "mount1", "mount1-deep", "mount2":
+	case "mount0", "mount1", "mount1-deep", "mount2", "mount-cross":
 		root := mk()
 		mf, _ := mount.NewFS(root)
 		_ = hackpadfs.Mkdir(root, "zz", 0o755)
@@ -193,7 +193,23 @@ func c05prefix(prefix, p string) string {
 	return prefix + "/" + p
 }
 
-func c05prefixStep(prefix string, st fsx.Step) fsx.Step {
+func c05prefixStep(stack c05stack, st fsx.Step) fsx.Step {
+	if stack.name == "mount-cross" {
+		// names whose first element is "b" live in the file system mounted at "m"; everything else in the root file
+		// system: the matrix's renames from a... to b... cross the mount boundary
+		cross := func(p string) string {
+			if p == "b" || strings.HasPrefix(p, "b/") {
+				return "m/" + p
+			}
+			return p
+		}
+		st.P = cross(st.P)
+		if st.P2 != "" {
+			st.P2 = cross(st.P2)
+		}
+		return st
+	}
+	prefix := stack.prefix
 	st.P = c05prefix(prefix, st.P)
 	if st.P2 != "" {
 		st.P2 = c05prefix(prefix, st.P2)
@@ -276,6 +292,9 @@ func c05run(env *core.Env, idx int) core.CaseResult {
 	}
 	defer b.cleanup()
 	// the prefix directory exists on both sides
+	if stack.name == "mount-cross" {
+		_ = hackpadfs.MkdirAll(ref, "m", 0o755)
+	}
 	if stack.prefix != "" {
 		_ = hackpadfs.MkdirAll(ref, stack.prefix, 0o755)
 		target := b.fs
@@ -289,13 +308,29 @@ func c05run(env *core.Env, idx int) core.CaseResult {
 	defer sh.CloseAll()
 	steps := cs.Hist
 	// invalid-name variants of the main operation ride along as extra steps
+	nInvalid := 0
 	if gen == nil && cs.NSetup < len(cs.Hist) {
 		main := cs.Hist[cs.NSetup]
+		steps = append([]fsx.Step(nil), steps...)
 		for _, bad := range []string{"", "x/", "/x", "a/../b"} {
 			v := main
 			v.P = bad
-			steps = append(append([]fsx.Step(nil), steps...), v)
+			steps = append(steps, v)
+			nInvalid++
 		}
+		// follow-up lookups on the same FS instance, at, below and above the name the main operation used: an answer
+		// remembered for one name must not be given for another
+		below, below2, above := main.P+"/c", main.P+"/c/ab", "."
+		if main.P == "." {
+			below, below2 = "c", "c/ab"
+		}
+		if i := strings.LastIndex(main.P, "/"); i > 0 {
+			above = main.P[:i]
+		}
+		for _, p := range []string{main.P, below, below2, above, main.P} {
+			steps = append(steps, fsx.Step{K: "Stat", P: p})
+		}
+		steps = append(steps, fsx.Step{K: "OpenClose", P: below, Flag: os.O_RDONLY}, fsx.Step{K: "ReadDir", P: below}, fsx.Step{K: "ReadFile", P: below2}, fsx.Step{K: "Stat", P: below})
 	}
 	for i, raw := range steps {
 		if gen != nil {
@@ -313,19 +348,23 @@ func c05run(env *core.Env, idx int) core.CaseResult {
 			}
 			for try := 0; ; try++ {
 				raw = gen.Namespace(tree, false)
-				st := c05prefixStep(stack.prefix, raw)
+				st := c05prefixStep(stack, raw)
 				if try > 20 || !env.Known.KnownSituation("C05", fmt.Sprintf("C05|%s|%s|%s|", c05stackKind(stack.name), st.K, c05sit(ref, st))) {
 					break
 				}
 			}
 			steps[i] = raw
 		}
-		st := c05prefixStep(stack.prefix, raw)
-		if i >= len(cs.Hist) {
+		st := c05prefixStep(stack, raw)
+		invalidRide := i >= len(cs.Hist) && i < len(cs.Hist)+nInvalid
+		if invalidRide {
 			st = raw // invalid names are passed as they are
 			if raw.P2 != "" {
 				st.P2 = c05prefix(stack.prefix, raw.P2)
 			}
+		}
+		if c05touchesMountPoint(stack, st) {
+			continue
 		}
 		if stack.readOnly {
 			if i < cs.NSetup {
@@ -344,12 +383,13 @@ func c05run(env *core.Env, idx int) core.CaseResult {
 			}
 		}
 		sit := c05sit(ref, st)
-		invalidRide := i >= len(cs.Hist)
 		if invalidRide {
 			sit = "invalid-name"
 		}
-		rr := fsx.Exec(ref, st, &rh, nil)
-		if invalidRide {
+		var rr fsx.Result
+		if !invalidRide {
+			rr = fsx.Exec(ref, st, &rh, nil)
+		} else {
 			// the reference does not validate names; the expectation is the property's: ErrInvalid naming the name passed in
 			rr = fsx.Result{Err: "ErrInvalid", Typ: "PathError", EPath: st.P, EOld: st.P, ENew: st.P2}
 			if st.K == "Rename" || st.K == "Symlink" {
@@ -414,6 +454,18 @@ func c05run(env *core.Env, idx int) core.CaseResult {
 		res.Sample = map[string]any{"stack": stack.name, "prefix": stack.prefix, "case": cs.Name, "history": fsx.HistoryString(cs.Hist)}
 	}
 	return res
+}
+
+// c05touchesMountPoint: removing or renaming the mount point itself is not an operation on the mirrored namespace.
+func c05touchesMountPoint(stack c05stack, st fsx.Step) bool {
+	if stack.name != "mount-cross" {
+		return false
+	}
+	switch st.K {
+	case "Remove", "RemoveAll", "Rename":
+		return st.P == "m" || st.P2 == "m"
+	}
+	return false
 }
 
 // c05pathKind describes how a reported path differs from the expected one.
